@@ -355,12 +355,28 @@ class _FwWatcher(object):
         self.fwmod, self.iptables, self.rulefile = fwmod, iptables, rulefile
         self.hits = hits
         self.handlers = None
+        self.watch = None
+        self.queue = []
         self.seen = set()
+        self.seen_all = set()
 
     def _patches(self):
         fwmod = self.fwmod
         noop = lambda *_a, **_k: None       # pylint: disable=unnecessary-lambda-assignment
-        return [mock.patch.object(fwmod, '_init_rules', noop), mock.patch.object(fwmod, '_configure_rules', noop),
+        sets = self.env.ipsets
+
+        def create_set(name, **_kw):
+            sets.setdefault(name, set())
+            self.env.created_sets = getattr(self.env, 'created_sets', set()) | {name}
+
+        def flush_set(name):
+            sets[name] = set()
+        return [mock.patch.object(fwmod, '_configure_rules', noop),
+                mock.patch.object(fwmod.iptables, 'create_chain', noop),
+                mock.patch.object(fwmod.iptables, 'create_set', create_set),
+                mock.patch.object(fwmod.iptables, 'flush_set', flush_set),
+                mock.patch.object(fwmod.iptables, 'list_all_sets',
+                                  lambda: sorted(getattr(self.env, 'created_sets', set()))),
                 mock.patch.object(fwmod.iptables, 'add_rule', noop),
                 mock.patch.object(fwmod.iptables, 'delete_rule', noop),
                 mock.patch.object(fwmod.iptables, 'flush_pt_conntrack_table', noop),
@@ -391,9 +407,29 @@ class _FwWatcher(object):
     def start(self):
         captured = {}
 
-        class _DW(object):
+        from treadmill.dirwatch import dirwatch_base
+        outer = self
+
+        class _DW(dirwatch_base.DirWatcher):
+            """The real DirWatcher (its `process_events` batching) fed from the harness' queue."""
+            __slots__ = ()
+
             def __init__(self, _path):
+                dirwatch_base.DirWatcher.__init__(self)
                 captured['w'] = self
+
+            def _add_dir(self, watch_dir):
+                return 1
+
+            def _remove_dir(self, watch_id):
+                return None
+
+            def _wait_for_events(self, timeout):
+                return bool(outer.queue)
+
+            def _read_events(self):
+                evs, outer.queue = outer.queue, []
+                return evs
 
             def wait_for_events(self, timeout=None):       # pylint: disable=unused-argument
                 raise _WStop()
@@ -411,45 +447,85 @@ class _FwWatcher(object):
         finally:
             for p_ in reversed(ps):
                 p_.stop()
-        self.handlers = (captured['w'].on_created, captured['w'].on_deleted)
+        self.watch = captured['w']
+        self.handlers = (self.watch.on_created, self.watch.on_deleted)
+        self.queue = []
         self.seen = set(files)
+        self.seen_all = set(os.listdir(self.rules_dir))
         self.run.op('wprime %s' % (','.join(str(ip2n(files[n])) for n in sorted(files)) or '-'), self._obs())
         self.run.tags.add('fw-watcher-start')
         self._judge('start')
 
     def deliver(self):
-        """Tell the watcher what changed in the rule directory (inotify order: creations and deletions as they
-        happened are not recorded by the engine - deletions first, then creations, each in name order)."""
+        """Tell the watcher what changed in the rule directory (the engine does not record the order in which a
+        finish unlinked its files: deletions first, then creations, each in name order).  The events go through
+        the real `DirWatcher.process_events(max_events=5)`, one call per turn of the watcher's loop, with the
+        handlers wrapped so that every call is one compared line."""
         if self.handlers is None:
             return
+        dwe = self.fwmod.dirwatch.DirWatcherEvent
         files = self._pt_files()
-        gone = sorted(self.seen - set(files))
-        new = sorted(set(files) - self.seen)
+        # every rule file is an event for the watcher (DNAT / SNAT files take their turn in the batches of five);
+        # only the passthrough ones concern the set and the model
+        allnow = set(os.listdir(self.rules_dir))
+        gone = sorted(self.seen_all - allnow)
+        new = sorted(allnow - self.seen_all)
+        if not gone and not new:
+            return
+        ips = {}
+        for n in gone:
+            cr = self.rulefile.RuleMgr.get_rule(n)
+            if cr is not None and type(cr[1]).__name__ == 'PassThroughRule':
+                ips[n] = cr[1].src_ip
+            self.seen.discard(n)
+            self.seen_all.discard(n)
+            self.queue.append((dwe.DELETED, os.path.join(self.rules_dir, n)))
+        for n in new:
+            if n in files:
+                ips[n] = files[n]
+                self.seen.add(n)
+            self.seen_all.add(n)
+            self.queue.append((dwe.CREATED, os.path.join(self.rules_dir, n)))
+        if len(gone) + len(new) > 5:
+            self.run.tags.add('fw-watcher-burst>5')
+        real_created, real_deleted = self.handlers
+        died = []
+
+        def on_created(path):
+            real_created(path)
+            if os.path.basename(path) in ips:
+                self.run.op('wcreated %d' % ip2n(ips[os.path.basename(path)]), self._obs())
+                self.run.tags.add('fw-watcher-created')
+
+        def on_deleted(path):
+            try:
+                real_deleted(path)
+            except KeyError:
+                self.run.op('wdeleted %d' % ip2n(ips.get(os.path.basename(path), '0.0.0.0')), 'KeyError')
+                died.append(path)
+                raise
+            if os.path.basename(path) in ips:
+                self.run.op('wdeleted %d' % ip2n(ips[os.path.basename(path)]), self._obs())
+                self.run.tags.add('fw-watcher-deleted')
+        self.watch.on_created, self.watch.on_deleted = on_created, on_deleted
         ps = self._patches()
         for p_ in ps:
             p_.start()
         try:
-            for n in gone:
-                ip = self.rulefile.RuleMgr.get_rule(n)[1].src_ip
-                self.seen.discard(n)
+            turns = 0
+            while (self.queue or self.watch.event_list) and turns < 50:
+                turns += 1
                 try:
-                    self.handlers[1](os.path.join(self.rules_dir, n))
-                    self.run.op('wdeleted %d' % ip2n(ip), self._obs())
+                    self.watch.process_events(max_events=5)
                 except KeyError:
-                    self.run.op('wdeleted %d' % ip2n(ip), 'KeyError')
                     self.hits.append(fw.Hit(clause='fw-watcher-died', call_site='sproc.firewall._watcher.on_deleted',
-                                            detail='KeyError on the deletion of %s' % n))
+                                            detail='KeyError on the deletion of %s' % os.path.basename(died[-1] if died else '?')))
                     self.handlers = None
                     return
-                self.run.tags.add('fw-watcher-deleted')
-            for n in new:
-                self.seen.add(n)
-                self.handlers[0](os.path.join(self.rules_dir, n))
-                self.run.op('wcreated %d' % ip2n(files[n]), self._obs())
-                self.run.tags.add('fw-watcher-created')
         finally:
             for p_ in reversed(ps):
                 p_.stop()
+            self.watch.on_created, self.watch.on_deleted = real_created, real_deleted
         self._judge('event')
 
     def _judge(self, when):
@@ -1198,9 +1274,17 @@ def _run_impl(case, root):
         fwatch.start()
         for op in case['ops']:
             k = op[0]
-            fwatch.deliver()
             if wr.random() < 0.15:
-                fwatch.start()          # the firewall watcher process restarts and primes itself again
+                # the firewall watcher process restarts (initialises its set, primes itself from the directory);
+                # half of the time it was already down while the last operation changed the directory
+                if wr.random() < 0.5:
+                    fwatch.deliver()
+                else:
+                    run.tags.add('fw-watcher-missed-events')
+                fwatch.start()
+            elif wr.random() < 0.7:
+                fwatch.deliver()
+            # (else: the watcher is busy - garbage collection, heartbeat - and the events pile up)
             if k == 'start':
                 do_start(op[1])
             elif k == 'finish':
